@@ -46,7 +46,7 @@ def run(ctx):
         plan = {"mc": [("excl", c, PROPS, dict(family=all4, horizon=30, maxep=3, maxins=2, ticks=(10, 30), timeout=1500)),
                        ("excl3_oper", c, PROPS, dict(ids=3, family=("lease", "operator"), horizon=20, maxep=1, maxins=3, ticks=(10, 30), timeout=1500)),
                        ("excl3_batch", c, PROPS, dict(ids=3, family=("lease", "leasebatch"), horizon=20, maxep=1, maxins=3, ticks=(10, 30), timeout=1500))],
-                "gen": [("excl", c, dict(family=("lease", "operator"), horizon=20, maxep=2, maxins=2, pick="insertion"), 1)],
+                "gen": [("excl", c, dict(family=("lease", "operator", "restart"), horizon=20, maxep=2, maxins=2, pick="insertion"), 1)],
                 "drv": [("lease", "lease", 3000, 90, {})]}
         n0, n1, g, rounds = 150, 40, 6, 16
     conc(ctx, "l0-conc", "l0conc", n0, ["-g", str(g), "-rounds", str(rounds), "-ops", "2"])
